@@ -1115,6 +1115,34 @@ def c32(idx: Index, rep: Report, tier: str) -> None:
         ne += 1
         missing = sorted(m_sel[req] - have)
         rep.check(not missing, rule_e, f"the report for a rejected candidate accepts every engine class that takes `{req}`", get.loc(nd.ast), construct=f"{req} given: assert issubclass(EngineClass, {sorted(have)})" + ("" if not missing else f" — selection also accepts {missing}"), detail="" if not missing else f"a candidate of class {missing} that does not meet the requested {req} is rejected by the selection and then trips this assertion while the error report is built: the caller gets an AssertionError instead of the no-suitable-engine error", function=get.qualname)
+    # every name the factory itself puts into the preference list is a registered engine at that moment (the
+    # selection loops index self._engines with every entry): an append is dominated by the registration of that name
+    # — `self._engines[x] = …`, `self._add_engine(x, …)` (stores or raises) — or by a membership test, or x iterates
+    # over the registered names
+    rule_p = "C32.8 T3 preference-entries-are-registered-first"
+    npf = 0
+    for f in fac.methods.values():
+        apps = [c for c in walk_no_nested(f.node) if isinstance(c, ast.Call) and isinstance(c.func, ast.Attribute) and c.func.attr in ("append", "insert") and norm(c.func.value) == "self._preference_list" and c.args]
+        if not apps:
+            continue
+        fcfg = cfg_of(f)
+        from ..rules2 import path_facts
+
+        for c in apps:
+            x = norm(c.args[-1])
+            nds = fcfg.node_containing(c)
+            if not nds:
+                continue
+            npf += 1
+            facts = path_facts(fcfg, nds[0])
+            by_test = any(v and t in (f"{x} in self._engines", f"{x} in self.engines", f"{x} in self._engines.keys()") for t, v in facts)
+            regs = {nd for nd in fcfg.nodes if nd.ast is not None and nd.kind == "stmt" and ((isinstance(nd.ast, ast.Assign) and isinstance(nd.ast.targets[0], ast.Subscript) and norm(nd.ast.targets[0].value) == "self._engines" and norm(nd.ast.targets[0].slice) == x) or any(isinstance(k, ast.Call) and call_name(k) == "_add_engine" and k.args and norm(k.args[0]) == x for k in ast.walk(nd.ast)))}
+            by_reg = bool(regs) and fcfg.path_avoiding(fcfg.entry, nds[0], regs) is None
+            by_iter = any(l.kind == "for" and norm(l.owner.target) == x and norm(l.owner.iter) in ("self._engines", "self._engines.keys()", "self.engines") and any(y is c for st in l.owner.body for y in ast.walk(st)) for l in fcfg.nodes)
+            ok = by_test or by_reg or by_iter
+            rep.check(ok, rule_p, f"{f.name}: `{x}` is registered before it enters the preference list", f.loc(c), construct=norm(c)[:60] + (" after its registration" if by_reg else " under a membership test" if by_test else " for a registered name" if by_iter else " — not known to be registered"), detail="" if ok else "the name enters the preference list before (or without) its engine class being registered: when the registration fails (optional dependency missing) the list keeps a name that self._engines does not know, and every later automatic selection that reaches it raises KeyError instead of the no-suitable-engine error", function=f.qualname)
+    rep.count("preference_appends", npf)
+    rep.require_min(rule_p, "preference_appends", 4)
     rep.count("report_assertions", ne)
     rep.require_min(rule_e, "report_assertions", 2)
 
